@@ -9,6 +9,7 @@ INVARIANTS
   TypeOK
   C29_ReturnedHandleIsBacked
   C29_LeftAtZero
+  X_HandleUsesCurrentSession
   X_CounterCountsHandles
 PROPERTIES
   C29_LeftOnlyAtZero
